@@ -4,6 +4,7 @@ import os
 
 from harness.common import facts as F
 from harness.c13 import translate as TR
+from harness.c13 import translate_b as TB
 
 ID = 'C13'
 HERE = os.path.dirname(os.path.abspath(__file__))
@@ -19,8 +20,12 @@ RULE = ('request cases: every single injection point (20) x exception kind (plai
         'single-fault sweep on apps whose event subscribers are registered only AFTER the router was built; 36 two-thread '
         'interleavings (a fresh thread serves a request while another is inside its view; a test). thorough '
         'adds every PAIR of faults in one request and every (parent, subrequest) fault pair x use_tweens, and a 16-thread '
-        'soak (a test: per-thread stacks independent, observations equal to the single-threaded ones). scope cases: the 15 '
-        'analysed entry points x failure site. non-trivial = a request case in which a fault fires or a callback runs, or '
+        'soak (a test: per-thread stacks independent, observations equal to the single-threaded ones). scope cases: the 16 '
+        'analysed entry points x failure site (hand-written sites + an exception injected at every executed statement with '
+        'an opaque call), each also RE-ENTRANT: opened while the frame it is about to push -- same request object, same '
+        'registry -- is already current (prepare(request=current), invoke_subrequest(current request), nested '
+        'RequestContext / Configurator scopes, and the same nesting done from inside a running view), and '
+        'route_prefix_context / include(route_prefix=) with bytes / int / str-subclass / empty / None prefixes. non-trivial = a request case in which a fault fires or a callback runs, or '
         'a scope case with an injected failure, or the soak; distinct by full case')
 ASSUMPTIONS = [
     'part (a): only calls raise (attribute access, arithmetic, truth tests do not); an opaque call leaves the thread-local '
@@ -37,11 +42,21 @@ ASSUMPTIONS = [
     'running number of the callback that makes it), so chains are bounded',
 ]
 TRUSTED = ['Python-ast -> stmt translator harness/c13/translate.py (fail-closed; bindings table written by hand)',
-           'hand-written pipeline model coq/Model/C13.v part (b) (shape-pinned functions, differential correspondence)',
+           'Python-ast -> exception/state-monad translator harness/c13/translate_b.py (fail-closed; leaf table PRIM '
+           'written by hand) for _process_response_callbacks, _process_finished_callbacks, Router.finish_request, '
+           'invoke_request, request_context, invoke_subrequest, default_execution_policy, RequestContext.begin/end/'
+           '__enter__/__exit__, _error_handler, excview_tween',
+           'hand-written pipeline model coq/Model/C13.v part (b): the functions above are regenerated and proved equal to '
+           'it; Router.handle_request, _call_view, invoke_exception_view, _find_views, the view derivers stay '
+           'shape-pinned (differential correspondence)',
            'WebOb request/response, zope.interface adapter lookup, view derivers (exercised for real, not modelled)']
 TECHNIQUE = ('Coq: verified path-summary analysis (analyse_sound) run by vm_compute on push/pop skeletons regenerated from '
-             'the source on every run; induction over scenario trees for the pipeline interpreter; extracted-model '
-             'fault-injection correspondence through a real Router')
+             'the source on every run; the router/tween/callback functions translated on every run into an '
+             'exception/state monad, parametric in their leaves, and proved equal to reference programs for every value '
+             'of the leaves (symbolic execution, scripts that do not mention the generated text) and, with the '
+             "interpreter's leaves, to the hand-written pipeline model at every level of the scenario tree; induction "
+             'over scenario trees for the pipeline interpreter; the extracted runner executes the interpreter assembled '
+             'from the generated programs; fault-injection correspondence through a real Router')
 LEVEL_TEXT = ('Machine-checked: (a) for the regenerated skeletons of Router.__call__/default_execution_policy, '
               'invoke_subrequest, invoke_request, invoke_exception_view, the excview tween, Configurator '
               'commit/include/action/route_prefix_context/with/make_wsgi_app/begin/end and scripting prepare/get_root/closers, '
@@ -52,26 +67,72 @@ LEVEL_TEXT = ('Machine-checked: (a) for the regenerated skeletons of Router.__ca
               'stack: the stack is restored and every event happens with its own request current; and for every valid '
               'scenario tree the run satisfies the declarative judge of the property (finished callbacks exactly the '
               'registered ones, once, in order, after everything else; response callbacks then NewResponse exactly when a '
-              'response came out of the tween chain; also when callbacks raise).')
-LEVEL_NOTE = ('Trusted: Coq kernel; the translator and its binding table; the hand-written pipeline model (validated by the '
-              'fault-injection correspondence, shape-pinned); Python harness. The judge proved of the model is the same '
+              'response came out of the tween chain; also when callbacks raise); (c) the programs regenerated from the '
+              'current source of invoke_request, finish_request, the two callback loops, RequestContext, '
+              'default_execution_policy, invoke_subrequest, _error_handler and excview_tween equal the reference programs '
+              'for every behaviour of their leaves, the interpreter assembled from them equals the pipeline interpreter '
+              '(C13_gen_run_is_model), and the statements of (b) hold of it (C13_gen_pipeline_depth, '
+              'C13_gen_satisfies_judge).')
+LEVEL_NOTE = ('Trusted: Coq kernel; the two translators with their binding / leaf tables; the hand-written parts of the pipeline '
+              'model (handle_request, view lookup, exception-view selection: shape-pinned, validated by the fault-injection '
+              'correspondence); what a leaf means (prims_of in Model/C13.v); Python harness. The judge proved of the model is the same '
               'extracted judge that is evaluated on every observation of the implementation.')
 
 PINS_SPEC = {
-    'pyramid/router.py': ['Router.handle_request', 'Router.invoke_request', 'Router.finish_request',
-                          'Router.invoke_subrequest', 'Router.request_context', 'Router.__call__',
-                          'default_execution_policy', 'Router.__init__'],
-    'pyramid/threadlocal.py': ['ThreadLocalManager', 'RequestContext', 'get_current_request', 'get_current_registry',
-                               'defaults'],
-    'pyramid/request.py': ['CallbackMethodsMixin', 'add_global_response_headers', 'RequestLocalCache.set'],
+    'pyramid/router.py': ['Router.handle_request', 'Router.__call__', 'Router.__init__'],
+    'pyramid/threadlocal.py': ['ThreadLocalManager', 'get_current_request', 'get_current_registry', 'defaults'],
+    'pyramid/request.py': ['add_global_response_headers', 'RequestLocalCache.set'],
     'pyramid/view.py': ['_call_view', 'ViewMethodsMixin.invoke_exception_view', '_find_views', 'render_view_to_response'],
     'pyramid/scripting.py': ['AppEnvironment.__enter__', '_make_request'],
-    'pyramid/tweens.py': ['_error_handler', 'excview_tween_factory'],
     'pyramid/util.py': ['hide_attrs'],
     'pyramid/viewderivers.py': ['_secured_view', 'rendered_view'],
     'pyramid/config/views.py': ['predicated_view', 'ViewsConfiguratorMixin.add_default_view_derivers',
                                 'ViewsConfiguratorMixin._apply_view_derivers'],
 }
+
+
+# masked pins (pins_masked.json): the shape of the whole definition with the bodies of the named inner functions
+# blanked -- those bodies are translated (translate_b.py, generated = model theorems), the rest (class-level
+# statements, bases, decorators, the other methods, the factory shell that returns the tween) stays pinned
+PINS_MASKED_SPEC = {
+    'pyramid/tweens.py': {'excview_tween_factory': ['excview_tween']},
+    'pyramid/request.py': {'CallbackMethodsMixin': ['_process_response_callbacks', '_process_finished_callbacks']},
+    'pyramid/threadlocal.py': {'RequestContext': ['begin', 'end', '__enter__', '__exit__']},
+}
+
+
+def masked_shape(src, rel, qual, blanks):
+    import ast
+    import hashlib
+    node = F.Module(src, rel).find(qual)
+    if node is None:
+        return None
+    node = F.strip_doc(node)
+    for n in ast.walk(node):
+        if isinstance(n, ast.FunctionDef) and n.name in blanks:
+            n.body = [ast.Pass()]
+    return hashlib.sha1(ast.dump(node).encode()).hexdigest()[:16]
+
+
+def check_masked(src, problems):
+    with open(os.path.join(HERE, 'pins_masked.json')) as f:
+        pins = json.load(f)
+    out = {}
+    for rel, quals in PINS_MASKED_SPEC.items():
+        for q, blanks in quals.items():
+            try:
+                got = masked_shape(src, rel, q, blanks)
+            except (OSError, SyntaxError) as e:
+                problems.append('cannot parse %s: %s' % (rel, e))
+                continue
+            want = pins.get(rel, {}).get(q)
+            out['%s:%s (masked)' % (rel, q)] = got
+            if got is None:
+                problems.append('masked pin %s:%s -- definition no longer exists' % (rel, q))
+            elif got != want:
+                problems.append('masked pin %s:%s changed (%s -> %s): something outside the translated bodies %s '
+                                'changed' % (rel, q, want, got, blanks))
+    return out
 
 
 ANCHOR_FILES = ['pyramid/router.py', 'pyramid/threadlocal.py', 'pyramid/request.py', 'pyramid/view.py',
@@ -108,7 +169,10 @@ def no_stack_reference(src, problems):
     import ast
     with open(os.path.join(HERE, 'pins.json')) as f:
         pins = json.load(f)
-    tied = set(TR.TRANSLATED)
+    with open(os.path.join(HERE, 'pins_masked.json')) as f:
+        for rel, qs in json.load(f).items():
+            pins.setdefault(rel, {}).update(qs)
+    tied = set(TR.TRANSLATED) | set(TB.TRANSLATED_B)
     n = 0
     for rel in ANCHOR_FILES:
         pinned = list(pins.get(rel, {}))
@@ -178,6 +242,7 @@ def binding_facts(src, problems):
 def facts(src):
     problems = []
     summary = F.check_shapes(src, os.path.join(HERE, 'pins.json'), problems)
+    summary.update(check_masked(src, problems))
     summary['no_stack_reference_functions'] = no_stack_reference(src, problems)
     binding_facts(src, problems)
     try:
@@ -188,6 +253,15 @@ def facts(src):
     except Exception as e:  # fail closed: without skeletons nothing type-checks
         problems.append('translator failed: %r' % e)
         coq = F.HEADER
+    # part (b): the router functions translated into the exception/state monad (generated = reference theorems)
+    tb = TB.translate(src)
+    problems += tb['problems']
+    gen = tb['coq']
+    if tb['problems']:
+        with open(os.path.join(HERE, 'gen_fallback_b.v')) as f:     # stored translation of the modelled text
+            gen = f.read()
+    summary['translated_b'] = TB.TRANSLATED_B
+    coq += '\nRequire Import Verif.Lib.C13Monad.\n' + gen
     return {'coq': coq, 'summary': summary, 'problems': problems}
 
 
